@@ -190,7 +190,14 @@ func validFile(c cfg, got, pt []byte) error {
 		}
 		bin = b
 	}
-	o, err := refage.Decrypt(bin, keys.P(c.party).Ref)
+	var ref refage.Key
+	for _, m := range keys.Flatten(keys.Ps(c.party)) {
+		if m.Ref != nil {
+			ref = m.Ref
+			break
+		}
+	}
+	o, err := refage.Decrypt(bin, ref)
 	if err != nil {
 		return fmt.Errorf("not a complete valid file: %v", err)
 	}
@@ -244,6 +251,14 @@ func dstSide(r *mon.Run) {
 	for _, sz := range []int{100, 65536, 131073} {
 		for _, arm := range []bool{false, true} {
 			cfgs = append(cfgs, cfg{size: sz, armored: arm, party: "X1", copy: true})
+		}
+	}
+	// recipients whose stanza bodies span several 64-column lines (ssh-rsa of
+	// two sizes, a group with a third-party stanza of exactly one full line):
+	// the header is written line by line
+	for _, party := range []string{"R1", "R4", "G2"} {
+		for _, arm := range []bool{false, true} {
+			cfgs = append(cfgs, cfg{size: 100, armored: arm, party: party})
 		}
 	}
 	for _, sz := range []int{-1, 0, 1, 47, 48, 49, 96, 1000} {
